@@ -69,14 +69,22 @@ class GetReader(Contract):
         reg = I.ctx.modstate[(GR, '_readers')]
         n0, get0 = self.reg0
         out = [('frame:registry-unchanged', symlist_same(reg, n0, get0)),
-               ('frame:registry-same-object', reg is self.reg)]
+               ('frame:registry-same-object', reg is self.reg)] + self.global_frame(I)
         return out
+
+    def global_frame(self, I):
+        """history independence needs more than an unchanged registry: the function may neither
+        write any module-level variable nor read one other than the registry"""
+        w = sorted(set(e[2] for e in I.ctx.events if e[0] == 'global-write'))
+        r = sorted(set(e[2] for e in I.ctx.events if e[0] == 'global-read' and e[2] != '_readers'))
+        return [('frame:no-module-global-written %s' % (w or ''), not w),
+                ('determinism:no-other-module-state-read %s' % (r or ''), not r)]
 
     def on_raise(self, inp, exc, I):
         reg = I.ctx.modstate[(GR, '_readers')]
         n0, get0 = self.reg0
         return [('frame:registry-unchanged[raise %s]' % exc, symlist_same(reg, n0, get0)),
-                ('raises-only-TypeError', exc == 'TypeError')]
+                ('raises-only-TypeError', exc == 'TypeError')] + self.global_frame(I)
 
     loops = {0: LoopSpec(inv=lambda env: True)}
 
